@@ -238,6 +238,11 @@ def simple_items(tier="quick"):
         continue
       for nk in ((2, 3, 4, 5) if thorough else (2, 3)):
         out.append(dict(kind="pwl", mono=mono, lo=lo, hi=hi, cmin=cmin, cmax=cmax, nk=nk))
+        if nk == 3:
+          # layer forms whose call() does not simply return the keypoint outputs: a missing-value
+          # sentinel that is itself a keypoint, missing values marked by a tensor only, split outputs
+          for variant in ("sentinel-on-keypoint", "tensor-only"):
+            out.append(dict(kind="pwl", mono=mono, lo=lo, hi=hi, cmin=cmin, cmax=cmax, nk=nk, variant=variant))
   for lc in c06.linear_configs("quick"):
     if thorough and lc["n"] == 3 and not (lc["md"] or lc["rd"]):
       out.append(dict(kind="linear", lcfg=lc))
@@ -264,9 +269,11 @@ def pwl_case(item, ctx=None):
   tf, tfl = bind.bind()
   nk, mono, lo, hi = item["nk"], item["mono"], item["lo"], item["hi"]
   kp = np.arange(nk, dtype=np.float32)
+  variant = item.get("variant", "sentinel-outside")
+  sentinel = {"sentinel-outside": -9.0, "sentinel-on-keypoint": float(kp[1]), "tensor-only": None}[variant]
   layer = tfl.layers.PWLCalibration(input_keypoints=kp, monotonicity=mono, output_min=lo,
                                     output_max=hi, clamp_min=item["cmin"], clamp_max=item["cmax"],
-                                    impute_missing=True, missing_input_value=-9.0)
+                                    impute_missing=True, missing_input_value=sentinel)
   layer.build((None, 1))
   W = alpha.words(alpha.A5, nk)
   msgs, total, nontriv = [], 0, 0
@@ -313,7 +320,8 @@ def pwl_case(item, ctx=None):
   # multi-unit: a unit that misses a bound / clamp next to a feasible unit must still be rejected
   if not msgs:
     layer2 = tfl.layers.PWLCalibration(input_keypoints=kp, units=2, monotonicity=mono, output_min=lo,
-                                       output_max=hi, clamp_min=item["cmin"], clamp_max=item["cmax"])
+                                       output_max=hi, clamp_min=item["cmin"], clamp_max=item["cmax"],
+                                       split_outputs=(variant != "sentinel-outside"))
     layer2.build((None, 1))
     def slacks(w):
       y = np.cumsum(w)
